@@ -356,13 +356,16 @@ class Frame:
         heap0 = dict(self.ev.heap)
         a = st.copy()
         a.ret = T.CONT if st.ret is None else st.ret
-        a.conds = st.conds + ((cond, True),)
+        c_, pol_ = cond, True
+        while c_[0] == "not":  # canonical path condition: (positive condition, polarity)
+            c_, pol_ = c_[1], not pol_
+        a.conds = st.conds + ((c_, pol_),)
         self.exec_block(s.body, a)
         heap_a = self.ev.heap
         self.ev.heap = dict(heap0)
         b = st.copy()
         b.ret = T.CONT if st.ret is None else st.ret
-        b.conds = st.conds + ((cond, False),)
+        b.conds = st.conds + ((c_, not pol_),)
         self.exec_block(s.orelse, b)
         heap_b = self.ev.heap
         # merge
